@@ -259,6 +259,25 @@ def run(world, rep, tier, only=None):
                    (rd.text()[:40], rd.line))
     rep.floor("C02.h inode reads in pass1.c whose result is the checksum verdict", n_h, 1)
 
+    # ------------------------------------------------------------------ C02.i every group's fixed metadata is reserved before any location is judged
+    # ext2fs_check_desc() is what rejects a bitmap or inode table placed on the superblock / descriptor copies of
+    # *another* group (pass 1 marks those group by group and cannot see a later group's).  It can only do so because
+    # the copies of all groups are in the map before the first location is tested: the reserving loop is complete
+    # - not merged with the loop that tests - when the tests begin.
+    cd = prog.fn("ext2fs_check_desc", "lib/ext2fs/check_desc.c")
+    res_ = calls_to(cd, "ext2fs_reserve_super_and_bgd")
+    tests_ = [n for n in cd.call_nodes() if is_call(n, "ext2fs_test_block_bitmap2", "ext2fs_test_block_bitmap_range2",
+                                                      "ext2fs_mark_block_bitmap2", "ext2fs_mark_block_bitmap_range2")] + \
+        [cd.block_end(b) for b in cd.blocks if cd.literal(b) and
+         any(cc.get("fn") in ("ext2fs_test_block_bitmap2", "ext2fs_test_block_bitmap_range2") for cc in T.calls(cd.literal(b)[0]))]
+    rep.floor("C02.i reserve / test sites in ext2fs_check_desc", min(len(res_), len(tests_)), 1)
+    for i, r_ in enumerate(res_):
+        hb = loop_head(cd, r_)
+        body = natural_loops(cd).get(hb, set()) if hb is not None else set()
+        mixed = [t_ for t_ in tests_ if t_ in body]
+        rep.ob("C02.i", site(cd, "all groups reserved before the first location is tested#%d" % i), hb is not None and not mixed,
+               "the loop around ext2fs_reserve_super_and_bgd() contains no test of the map: %s" % [t_.line for t_ in mixed[:3]])
+
 
 def _aborts_after(prog, fn, n):
     """every path from the call to the function's exit passes ctx->flags |= E2F_FLAG_ABORT or a noreturn call"""
